@@ -8,7 +8,7 @@ META = {
     "level": "proof",
     "technique": "contract-based deductive verification: the line accounting of the real PythonPrinter (a ghost count of newlines written; invariant 'lineno is the generated line about to be written' through write_blanks / write_indented_block / writeline; start_source records the first template line for that generated line; each line of a code block maps to its own template line: loop invariant) and the lexer's line/column bookkeeping in match_reg; VCs from their AST discharged by z3/cvc5",
     "level_text": "For all call sequences and inputs of the printer: the line counter equals 1 + newlines written + lines buffered after every operation, so the key start_source writes into the source map is the generated line the next statement lands on; a <% %> block's i-th line is mapped to template line start+i; earlier map entries are never overwritten. For the lexer: the line reported for a match is the line of the match start, the counter adds the newlines of the consumed text.",
-    "level_note": "From the source map to what RichTraceback, the error templates, format_exceptions and the warning hooks display (metadata serialisation, full_line_map, frame walking, warning re-location) is outside the contracts: bounded traceback/warning grid on four construction paths. Assumed: _flush_adjusted_lines writes each buffered line with one newline and empties the buffer (its re-margining is C19), _indent_line keeps a line's newlines, StringIO.write appends.",
+    "level_note": "From the source map to what RichTraceback, the error templates, format_exceptions and the warning hooks display (metadata serialisation, full_line_map, frame walking, warning re-location) is outside the contracts: bounded traceback / chain / re-entrant-frame / warning grids on five construction paths (module directory absolute and relative). Known finding: frames of generated code ahead of a render function's first construct (def stubs, hoisted lookups) are reported at template line 0. Assumed: _flush_adjusted_lines writes each buffered line with one newline and empties the buffer (its re-margining is C19), _indent_line keeps a line's newlines, StringIO.write appends.",
 }
 
 
